@@ -39,42 +39,39 @@ theorem heldBy_singleton (e : Sub) (c : ConnId) (k : Kind) :
 theorem heldBy_filter_ne (s : State) (c : ConnId) (k : Kind) (x : Bytes) (c' : ConnId) (k' : Kind) :
     heldBy (s.filter (fun e => decide (e ≠ ⟨c, k, x⟩))) c' k' =
       if c' = c ∧ k' = k then srem (heldBy s c k) x else heldBy s c' k' := by
-  induction s with
-  | nil => simp [heldBy_nil]
-  | cons e s ih =>
-    have hc : ∀ (t : State), heldBy (e :: t) c' k' = heldBy [e] c' k' ++ heldBy t c' k' := fun t => heldBy_append [e] t c' k'
-    have hc2 : ∀ (t : State), heldBy (e :: t) c k = heldBy [e] c k ++ heldBy t c k := fun t => heldBy_append [e] t c k
-    by_cases he : e = ⟨c, k, x⟩
-    · subst he
-      simp only [List.filter, ne_eq, not_true_eq_false, decide_false, ih]
-      split
-      · rename_i h
-        rw [hc2, heldBy_singleton]
-        simp [srem, List.filter]
-      · rename_i h
-        rw [hc, heldBy_singleton]
-        have : ¬ (c' = c ∧ k' = k) := h
-        simp [this]
-    · simp only [List.filter, ne_eq, he, not_false_eq_true, decide_true]
-      rw [hc, ih, heldBy_singleton]
-      split
-      · rename_i h
-        obtain ⟨h1, h2⟩ := h
-        subst h1; subst h2
-        rw [hc2, heldBy_singleton]
-        by_cases h' : c' = e.conn ∧ k' = e.kind
-        · obtain ⟨h1, h2⟩ := h'
-          have hx : ¬ e.name = x := by
-            intro hn
-            apply he
-            obtain ⟨ec, ek, en⟩ := e
-            simp only at h1 h2 hn
-            subst h1; subst h2; subst hn
-            rfl
-          simp [h1, h2, srem, List.filter, hx]
-        · simp [h', srem]
-      · rw [hc]
-        rw [heldBy_singleton]
+  unfold heldBy
+  rw [List.filter_filter]
+  by_cases hck : c' = c ∧ k' = k
+  · obtain ⟨h1, h2⟩ := hck
+    subst h1; subst h2
+    simp only [and_self, if_true, srem]
+    rw [List.filter_map, List.filter_filter]
+    congr 1
+    apply List.filter_congr
+    intro e _
+    obtain ⟨ec, ek, en⟩ := e
+    simp only [Function.comp]
+    by_cases h : ec = c' ∧ ek = k'
+    · obtain ⟨h1, h2⟩ := h
+      subst h1; subst h2
+      simp
+    · simp [h]
+  · simp only [hck, if_false]
+    congr 1
+    apply List.filter_congr
+    intro e _
+    obtain ⟨ec, ek, en⟩ := e
+    by_cases h : ec = c' ∧ ek = k'
+    · obtain ⟨h1, h2⟩ := h
+      subst h1; subst h2
+      have : ¬ (ec = c ∧ ek = k) := hck
+      simp
+      by_cases a : ec = c
+      · by_cases b : ek = k
+        · exact absurd ⟨a, b⟩ this
+        · exact Or.inr (Or.inl b)
+      · exact Or.inl a
+    · simp [h]
 
 theorem heldBy_disconnect (s : State) (c c' : ConnId) (k : Kind) :
     heldBy (disconnect s c) c' k = if c' = c then [] else heldBy s c' k := by
@@ -93,7 +90,7 @@ theorem heldBy_disconnect (s : State) (c c' : ConnId) (k : Kind) :
     intro e _
     by_cases h : e.conn = c'
     · have : ¬ e.conn = c := fun e' => hc (h ▸ e')
-      simp [h, this]
+      simp [h, this, hc]
     · simp [h]
 
 theorem count_eq (s : State) (c : ConnId) :
@@ -241,11 +238,6 @@ theorem Rel.spec_unsub_idle {st : State} (k : Kind) (c : ConnId) (hidle : ∀ k'
         rw [h.heldEq, hidle]; rfl
       · exact h.heldEq c' k'
 
-/-- The code answers nothing when the connection has no entry (early return of `unsubscribe`). -/
-def silent (st : State) : Op → Bool
-  | .unsubscribe c _ _ => (aget st.subs c).isNone
-  | _ => false
-
 theorem Rel.unsubscribe {st : State} {s : Spec.State} (h : Rel st s) (k : Kind) (c : ConnId) (xs : Option (List Bytes)) :
     Rel (unsubscribe k c st xs).1 (Spec.unsubscribe k c s xs).1 ∧
       (unsubscribe k c st xs).2 = if (aget st.subs c).isNone then [] else (Spec.unsubscribe k c s xs).2 := by
@@ -276,7 +268,7 @@ theorem Rel.unsubscribeAll {st : State} {s : Spec.State} (h : Rel st s) (c : Con
 
 theorem Rel.next {st : State} {s : Spec.State} (h : Rel st s) (op : Op) :
     Rel (Code.next st op) (Spec.next s op) ∧
-      (Code.apply st op).2 = if silent st op then [] else (Spec.apply s op).2 := by
+      (Code.apply st op).2 = if Code.silent st op then [] else (Spec.apply s op).2 := by
   cases op with
   | subscribe c k xs => exact h.subscribe k c xs
   | unsubscribe c k xs => exact h.unsubscribe k c xs
